@@ -276,7 +276,7 @@ def r6_r2_line(ctx, sym):
             fd = symexec.new_fd(sym, fmod, calls={
                 'get_exception_name': lambda e: 'SyntaxError', 'add_indefinite_article': lambda x: 'a ' + x,
                 'ExpandedTraceback': rec.stub('ExpandedTraceback', ret=tb), 'Location': rec.stub('Location', fn=lambda **k: Obj('location', **k)),
-                'wrap_fields': lambda fmt, fields: dict(fields), 'super': lambda *a: sup})
+                'wrap_fields': lambda fmt, fields, *a_, **k_: dict(fields), 'super': lambda *a: sup})
             _, raised = symexec.run(fd, init, [line, filename, 'a\nb\nc\nd\ne\nf\ng\nh', col, exc, ('T', exc, None)],
                                     {'report': report}, bound_self=me, what='syntax_error.__init__')
             tag = '[line=%r,col=%r,%s,offsets=%r]' % (line, col, filename, offsets)
